@@ -55,8 +55,11 @@ FILLER = [
     "doc = \"\"\"para\x0cgraph, next\u2028line\nsecond\x0bpart\x85end\n\"\"\"",
     "rep = f\"\"\"Report\nvalue:\n{1 + 1} units\n{2} more\"\"\"",
     "chain = 1 + \\\n    \\\n    2",
+    "fs = f\"" + L + "b" + G + "{1 + 1}" + L + "/b" + G + " is " + L + "comment" + G + "short" + L + "/comment" + G + "\"",
+    "fu = f'" + L + "error" + G + "{2}" + L + "/b" + G + " " + L + "/info" + G + " {3!r:>4}'",
+    "num = 0x1F + 1_000 + 1e-3 + 2j  # " + L + "/" + G,
 ]
-MARKUPISH = {11, 12, 13, 14}
+MARKUPISH = {11, 12, 13, 14, 22, 23, 24}
 MULTILINE_TOKEN = {8, 19, 20}
 SNIPPET_RE = re.compile(r"^\s*(?P<mark>→|>)?\s*(?P<no>\d+)(?:│|\|) ?(?P<code>.*)$")
 
